@@ -50,66 +50,154 @@ def check(repo, res, tier):
     _kv(repo, res, bl)
 
 
-def _rows(repo, res, bl):
-    f = bl.methods["_getSolution"]
-    ifj = repo.func(M.M_UTILS, "integrateFuncJac")
-    cs = C.calls_to(f, "integrateFuncJac")
-    if len(cs) != 1:
-        res.violated("R-ROWMATCH", f, "integrates", "_getSolution does not call integrateFuncJac exactly once")
-        return
-    n, c, _ = cs[0]
-    b = C.bind_args(c, ifj.params)
-    problems = []
-    if not is_self_attr(b.get("x0"), "_x0"):
-        problems.append("x0=%s" % norm(b.get("x0")))
-    if not is_self_attr(b.get("t0"), "_t0"):
-        problems.append("t0=%s" % norm(b.get("t0")))
-    if not is_self_attr(b.get("t"), "_observeT"):
-        problems.append("t=%s (expected the observation times self._observeT)" % norm(b.get("t")))
-    io = b.get("includeOrigin")
-    if io is not None and const_value(io) not in (False, 0):
-        problems.append("includeOrigin=%s adds a row that has no observation" % norm(io))
-    fo = b.get("full_output")
-    if fo is not None and const_value(fo) not in (False, 0):
-        problems.append("full_output=%s returns a tuple" % norm(fo))
-    res.check(not problems, "R-ROWMATCH", f, "integrate-at-observations", "integrates from (x0, t0) at the observation times, one row per observation",
-              "; ".join(problems), node=c)
-    # parameters installed before integrating
-    cfg, df = cfg_of(f), dataflow_of(f)
-    sets = [m for m in cfg.stmt_nodes() if m.kind == "stmt" and isinstance(m.ast, ast.Assign) and norm(m.ast.targets[0]) == "self._ode.parameters"]
-    ok = bool(sets) and all(is_self_attr(m.ast.value, "_theta") for m in sets) and any(cfg.dominates(m, n) for m in sets)
-    res.check(ok, "R-ROWMATCH", f, "parameters-installed", "the model's parameters are set to self._theta before integrating",
-              "the model is integrated without first installing self._theta", node=f.node)
-    sp = [m for m, c2, callee in C.calls(f) if callee == "self._setParam"]
-    ok = bool(sp) and all(any(norm(t.ast.test) == "theta is not None" and o is True for t, o in C.if_guards(cfg, m)) for m in sp) and all(cfg.dominates(m, sets[0]) or True for m in sp)
-    res.check(ok, "R-ROWMATCH", f, "theta-applied", "a supplied theta is applied through _setParam first", "a supplied theta is not applied before integrating")
-    # observation times: a copy of the constructor's t; lengths asserted
+def constructed_attrs(repo, bl):
+    """attribute bag left by an abstract run of BaseLoss.__init__ (names only matter: rules that build their own abstract
+    loss object start from it so that an attribute a maintainer adds to the constructor exists in the abstract object too)"""
+    from ..core.symarr import SymArr, np_summaries
+    from ..core import algebra as A
     init = bl.methods["__init__"]
-    icfg, idf = cfg_of(init), dataflow_of(init)
-    st = [m for m in icfg.stmt_nodes() if m.kind == "stmt" and isinstance(m.ast, ast.Assign) and any(is_self_attr(t, "_observeT") for t in m.ast.targets)]
-    ok = len(st) == 1 and norm(st[0].ast.value) in ("t.copy()", "np.copy(t)", "np.array(t)")
-    if ok:
-        srcs = idf.strong_defs(st[0], "t")
-        ok = all(d.kind == "param" or (isinstance(d.value, ast.Call) and dotted(d.value.func).endswith("check_array_type") and norm(d.value.args[0]) == "t") for d in srcs)
-    res.check(ok, "R-ROWMATCH", init, "observation-times", "self._observeT is a copy of the constructor's t",
-              "self._observeT is %s" % [norm(m.ast.value) for m in st], node=st[0].ast if st else None)
-    asserts = [norm(a.test) for a in walk_no_nested(init.node) if isinstance(a, ast.Assert)]
-    res.check("len(t) == n" in asserts, "R-ROWMATCH", init, "lengths-asserted", "number of times == number of observations is asserted",
-              "the constructor no longer asserts len(t) == n (asserts: %s)" % asserts)
-    ys = [m for m in icfg.stmt_nodes() if m.kind == "stmt" and isinstance(m.ast, ast.Assign) and any(is_self_attr(t, "_y") for t in m.ast.targets)]
-    res.check(len(ys) == 1 and norm(ys[0].ast.value) == "y", "R-ROWMATCH", init, "observations-stored", "self._y is the constructor's y",
-              "self._y is %s" % [norm(m.ast.value) for m in ys])
-    # cost
-    cost = bl.methods["cost"]
-    rets = C.returns_of(cost)
-    cdf = dataflow_of(cost)
-    ok = False
-    for n2, c2, callee in C.calls(cost):
-        if callee == "self._lossObj.loss" and c2.args:
-            a0 = cdf.expand(c2.args[0], n2)
-            ok = isinstance(a0, ast.Call) and is_self_attr(a0.func, "_getSolution") and a0.args and norm(a0.args[0]) == cost.params[1]
-    res.check(ok, "R-ROWMATCH", cost, "cost-is-loss-of-trajectory", "cost(theta) = kernel.loss(_getSolution(theta))",
-              "cost does not apply the kernel's loss to _getSolution(theta)")
+    summ = np_summaries()
+    states = ["S", "I", "R"]
+    summ.update({
+        "ode_utils.check_array_type": lambda x, *a, **k: x if isinstance(x, SymArr) else SymArr.of(x),
+        "ode_utils.str_or_list": lambda x: [x] if isinstance(x, str) else list(x),
+        "Model.integrate2": lambda m_, tt: SymArr.symbols("sol", (3, 3)), "Model._iterStateList": lambda m_: list(states),
+        "Model.get_state_index": lambda m_, s_: ([states.index(s_)] if isinstance(s_, str) else [states.index(str(q)) for q in list(s_)]),
+        "Loss._setWeight_or_spread": lambda m_, *a, **k: Tok("W"), "Loss._setParam": lambda m_, th: None, "Loss._setX0": lambda m_, x: None,
+        "Loss._setLossType": lambda m_: Tok("lossObj"),
+        "InputError": lambda *a: Tok("InputError"), "RuntimeError": lambda *a: Tok("RuntimeError"), "AssertionError": lambda *a: Tok("AssertionError"),
+    })
+    me = Obj("Loss")
+    ode = Obj("Model", parameters=Tok("params"), num_param=3, num_state=3)
+    args = {"theta": SymArr.symbols("theta", (3,)), "ode": ode, "x0": SymArr.symbols("x0", (3,)), "t0": A.sym("t0"), "t": SymArr.symbols("t", (3,)),
+            "y": SymArr.symbols("y", (3, 2)), "state_name": ["R", "S"], "state_weight": None, "spread_param": None, "target_param": None, "target_state": None}
+    try:
+        kind, _ = Abs({}, {}, summ, me).run_function(init.node, args)
+    except Undecided:
+        return {}
+    return dict(me.attrs) if kind == "return" else {}
+
+
+def _rows(repo, res, bl):
+    """_getSolution / cost interpreted with the integrator replaced by a recorder: what is integrated, from where, at which
+    times, under which parameters, and what is handed to the kernel.  Each scenario is two consecutive calls on the same
+    object with the model's parameters changed from outside in between (the model object is shared), so that a call which
+    relies on what an earlier call left in the model is seen."""
+    from ..core.symarr import SymArr
+    from ..core import algebra as A
+    f = bl.methods["_getSolution"]
+    n_t, nS = 3, 3
+    X = SymArr.symbols("X", (n_t, nS))
+    obs = SymArr.symbols("tobs", (n_t,))
+    t0 = A.sym("t0")
+    t_all = SymArr((n_t + 1,), [A.sym("t0_as_stored_in_t")] + list(obs.flat))
+    x0 = SymArr.symbols("x0", (nS,))
+    st_idx = [2, 0]
+    base_attrs = constructed_attrs(repo, bl)
+    problems = {"integrate-at-observations": [], "parameters-installed": [], "theta-applied": [], "returns-observed-columns": []}
+    und = None
+    n_runs = 0
+    for first_theta, second_theta in ((None, None), ("th1", None), (None, "th2"), ("th1", "th2")):
+        for all_solution in (False, True):
+            me = Obj("Loss")
+            me.attrs.update(base_attrs)
+            me.attrs.update(dict(_theta=Tok("theta@ctor"), _x0=x0, _t0=t0, _observeT=obs, _t=t_all, _stateIndex=list(st_idx), _num_state=nS))
+            ode = Obj("Model")
+            ode.attrs.update({"__open__": True, "_intName": None})
+            me.attrs["_ode"] = ode
+            world = {"params": Tok("theta@ctor")}
+            rec = []
+
+            def integ(func, jac, x0_, t0_, t_, *a, **kw):
+                rec.append({"func": func, "jac": jac, "x0": x0_, "t0": t0_, "t": t_, "kw": dict(kw), "extra": a, "params": world["params"]})
+                return (X.copy(), {"info": Tok("info")}) if kw.get("full_output") else X.copy()
+
+            def set_param(m_, th):
+                m_.attrs["_theta"] = Tok("theta<-%s" % (th.label if isinstance(th, Tok) else th))
+            summ = {"ode_utils.integrateFuncJac": integ, "Loss._setParam": set_param,
+                    "set:Model.parameters": lambda o, v: world.__setitem__("params", v)}
+            for step, th in enumerate((first_theta, second_theta)):
+                if step == 1:
+                    world["params"] = Tok("changed-from-outside")
+                del rec[:]
+                try:
+                    kind, out = Abs({}, {}, summ, me).run_function(f.node, {"theta": Tok(th) if th else None, "all_solution": all_solution})
+                except Undecided as e:
+                    und = str(e)
+                    break
+                n_runs += 1
+                tag = "call %d (theta %s, all_solution=%s)" % (step + 1, "given" if th else "None", all_solution)
+                if kind != "return" or len(rec) != 1:
+                    problems["integrate-at-observations"].append("%s: %s after %d integrations" % (tag, kind, len(rec)))
+                    continue
+                r = rec[0]
+                if r["func"] != ("method", "ode_T") or r["jac"] != ("method", "jacobian_T"):
+                    problems["integrate-at-observations"].append("%s: integrates (%s, %s), expected the model's (ode_T, jacobian_T)" % (tag, r["func"], r["jac"]))
+                if not (isinstance(r["x0"], SymArr) and r["x0"].same(x0)):
+                    problems["integrate-at-observations"].append("%s: starts from %s, expected self._x0" % (tag, r["x0"]))
+                if not (A.lift(r["t0"]) == t0 if not isinstance(r["t0"], (SymArr, Tok, tuple, list)) else False):
+                    problems["integrate-at-observations"].append("%s: start time is %s, expected self._t0 (the first entry of self._t is t0 cast to the type of the observation times)" % (tag, r["t0"]))
+                if not (isinstance(r["t"], SymArr) and r["t"].same(obs)):
+                    problems["integrate-at-observations"].append("%s: output times are %s, expected the observation times" % (tag, r["t"]))
+                if r["kw"].get("includeOrigin") not in (None, False, 0):
+                    problems["integrate-at-observations"].append("%s: includeOrigin=%r adds a row that has no observation" % (tag, r["kw"].get("includeOrigin")))
+                if r["kw"].get("full_output") not in (None, False, 0):
+                    problems["integrate-at-observations"].append("%s: full_output=%r returns a tuple" % (tag, r["kw"].get("full_output")))
+                want_theta = Tok("theta<-%s" % th) if th else (me.attrs.get("_theta"))
+                if th and me.attrs.get("_theta") != want_theta:
+                    problems["theta-applied"].append("%s: the supplied theta is not applied through _setParam before integrating" % tag)
+                if r["params"] != me.attrs.get("_theta"):
+                    problems["parameters-installed"].append("%s: the model is integrated with parameters %s although the loss object holds %s" % (tag, r["params"], me.attrs.get("_theta")))
+                want = X if all_solution else X[:, st_idx]
+                if not (isinstance(out, SymArr) and out.same(want)):
+                    problems["returns-observed-columns"].append("%s: returns %s, expected %s" % (tag, out, "the whole solution" if all_solution else "the observed columns in supplied order"))
+            if und:
+                break
+        if und:
+            break
+    if und:
+        res.undecided("R-ROWMATCH", f, "abstract-execution", "outside the modelled subset: %s" % und)
+    else:
+        msgs = {"integrate-at-observations": "integrates the model's (ode, jacobian) from (x0, t0) at the observation times, one row per observation, exactly once per call",
+                "parameters-installed": "on every call the model's parameters are set to self._theta before integrating, whatever an earlier call or another user of the model left there",
+                "theta-applied": "a supplied theta is applied through _setParam first",
+                "returns-observed-columns": "hands back the observed columns of that integration (or all of it on request)"}
+        for k_, bad in problems.items():
+            res.check(not bad, "R-ROWMATCH", f, k_, msgs[k_] + " (%d abstract calls)" % n_runs, "; ".join(bad[:2]), node=f.node)
+    # cost / costIV = kernel loss of that trajectory
+    for name in ("cost", "costIV"):
+        g = bl.methods.get(name)
+        if g is None:
+            res.violated("R-ROWMATCH", bl.methods["_getSolution"], name, "%s vanished" % name)
+            continue
+        for aw in (True, False):
+            me = Obj("Loss")
+            me.attrs["_lossObj"] = Obj("Kernel")
+            calls = []
+
+            def get_solution(m_, theta=None, all_solution=False):
+                calls.append(("solve", theta))
+                return Tok("trajectory")
+
+            def loss(k_, yhat, apply_weighting=True):
+                calls.append(("loss", yhat, apply_weighting))
+                return 7.25
+            summ = {"Loss._getSolution": get_solution, "Kernel.loss": loss, "Loss._setParamStateInput": lambda m_, th: calls.append(("setPSI", th)),
+                    "Loss._setParam": lambda m_, th: calls.append(("setParam", th)), "np.nan_to_num": lambda x, *a, **k: x, "np.inf": float("inf")}
+            th = Tok("theta")
+            try:
+                kind, out = Abs({}, {}, summ, me).run_function(g.node, {"theta": th, "apply_weighting": aw})
+            except Undecided as e:
+                res.undecided("R-ROWMATCH", g, "%s-is-loss-of-trajectory" % name, "outside the modelled subset: %s" % e)
+                break
+            if name == "cost":
+                want = [("solve", th), ("loss", Tok("trajectory"), aw)]
+            else:
+                want = [("setPSI", th), ("solve", None), ("loss", Tok("trajectory"), aw)]
+            ok = kind == "return" and out == 7.25 and calls == want
+            res.check(ok, "R-ROWMATCH", g, "%s-is-loss-of-trajectory(apply_weighting=%s)" % (name, aw),
+                      "%s(theta) = kernel.loss(_getSolution at theta) with the caller's weighting flag" % name,
+                      "%s(theta) does %s and returns %s (%s); expected %s" % (name, calls, out, kind, want), node=g.node)
 
 
 def _columns(repo, res, bl):
